@@ -38,8 +38,30 @@ def ledger():
     out.append("")
     out.append("%d fixed entries, %d known entries." % (nf, nk))
     return "\n".join(out)
+def coverage():
+    claimed = open(V + '/props/claimed.txt').read().split()
+    out = ["## 13. As-built coverage per property (generated from props/*.json and the last evidence/*.json)", "",
+           "Numbers are those of the last quick-tier run recorded in evidence/ (thorough tiers enumerate the larger bounds named",
+           "in each rule).  `rule` in evidence/<id>.json states the enumerated space and what counts as non-trivial.", "",
+           "| property | level | sources x flavours (quick) | jobs | states | transitions | evaluations | distinct non-trivial | exhaustive | known findings hit |",
+           "|---|---|---|---|---|---|---|---|---|---|"]
+    for pid in claimed:
+        try:
+            p = json.load(open('%s/props/%s.json' % (V, pid)))
+            e = json.load(open('%s/evidence/%s.json' % (V, pid)))
+        except Exception:
+            continue
+        c = e['coverage']
+        runs = [r for r in p['runs'] if 'quick' in r.get('tiers', ['quick', 'thorough'])]
+        srcs = sorted(set(os.path.basename(r['src']) for r in runs))
+        fl = sorted(set(r['flavour'] for r in runs))
+        out.append("| %s | %s | %d sources (%s) x {%s} = %d binaries | %d | %s | %s | %s | %s | %s | %d |" % (
+            pid, e['level'], len(srcs), ", ".join(srcs[:4]) + (" ..." if len(srcs) > 4 else ""), ",".join(fl), len(runs), c.get('jobs_run', 0),
+            c.get('states', '-'), c.get('transitions', '-'), c.get('evaluations', 0), c.get('distinct_nontrivial', 0),
+            c.get('exhaustive'), len(c.get('known_findings_hit', []))))
+    return "\n".join(out)
 s = open(V + '/DESIGN.md').read()
-for name, body in (('SEEDS', seeds()), ('LEDGER', ledger())):
+for name, body in (('SEEDS', seeds()), ('LEDGER', ledger()), ('COVERAGE', coverage())):
     b, e = '<!-- BEGIN GENERATED %s -->' % name, '<!-- END GENERATED %s -->' % name
     block = b + "\n" + body + "\n" + e
     if b in s:
